@@ -196,8 +196,12 @@ type Extra struct {
 	NoCounter bool `json:"noCounter,omitempty"`
 	// after an admission through the remote max-in-flight limiter: the unfinished requests admitted through this same
 	// remote wrapper as max-in-flight, this one included (0: not an admission of that kind)
-	HeldRemote int   `json:"heldRemote,omitempty"`
-	CurrToken  int64 `json:"currentToken"`
+	HeldRemote int `json:"heldRemote,omitempty"`
+	// the unfinished requests (of this case) that were admitted by the very limiter object handed out now, resp. by the
+	// remote wrapper in force now: the harness's own book-keeping of the IMPLEMENTATION's admissions, not the model's
+	HeldOnHanded int   `json:"heldOnHanded"`
+	HeldOnRemote int   `json:"heldOnRemote"`
+	CurrToken    int64 `json:"currentToken"`
 }
 
 // ---------------------------------------------------------------------------------------------------------------
@@ -602,6 +606,15 @@ func runImpl(c *rig.Ctx, cs Case, rnd func(int) int) (res runResult) {
 			}
 			o, x := observe(cs, ul, cache, bare, lastRet, rnd)
 			x.NoCounter, x.HeldRemote = noCounter, heldRemote
+			handedNow := ul.GetOrDefault(fcName)
+			for _, h := range handles {
+				if h == handedNow {
+					x.HeldOnHanded++
+				}
+				if cache != nil && cache.FlowControl() != nil && h == flowcontrol.FlowControl(cache.FlowControl()) {
+					x.HeldOnRemote++
+				}
+			}
 			if cnt.exists {
 				remote.VerifSetEvent(cache, cnt.event) // the probes went through Count too
 				if o.WKind == 2 || o.WKind == 3 {
@@ -849,11 +862,10 @@ func evaluate(c *rig.Ctx, cs Case, rnd func(int) int) (*failure, runResult) {
 	}
 	for i, x := range res.Extra {
 		o := res.Obs[i]
-		// a capacity probe sees the bucket's size minus the requests in flight in it (the model's count of them)
-		var lcount, rcount int64
-		if i < len(m.Counts) {
-			lcount, rcount = m.Counts[i][0], m.Counts[i][1]
-		}
+		// a capacity probe sees the bucket's size minus the requests in flight in it: the unfinished requests the
+		// IMPLEMENTATION admitted through that very object (the harness's own count; the model's counts are compared by the
+		// correspondence check only — a stricter implementation that admits fewer must not be blamed for the model's count)
+		lcount, rcount := int64(x.HeldOnHanded), int64(x.HeldOnRemote)
 		room := func(size, count int64) int {
 			r := size - count
 			if r < 0 {
@@ -863,9 +875,6 @@ func evaluate(c *rig.Ctx, cs Case, rnd func(int) int) (*failure, runResult) {
 		}
 		if x.Probe >= 0 && o.Lim != nil && o.Lim.Size != nil {
 			cnt := lcount
-			if o.Choice == "remote" {
-				cnt = rcount
-			}
 			want := room(*o.Lim.Size, cnt)
 			if x.Probe > want {
 				return &failure{kind: "judge", class: "c09.admits-more-than-size", step: i, impl: x,
@@ -910,6 +919,18 @@ func evaluate(c *rig.Ctx, cs Case, rnd func(int) int) (*failure, runResult) {
 			what: fmt.Sprintf("implementation ran %d ops (panic %q), model ran %d ops (panic %q)", len(res.Obs), res.Panic, len(m.Model), mp)}, res
 	}
 	for i := range res.Obs {
+		// the model's in-flight counts against the implementation's admissions (the harness's own book-keeping)
+		if i < len(m.Counts) && i < len(res.Extra) {
+			x, o := res.Extra[i], res.Obs[i]
+			if o.Choice == "local" && m.Counts[i][0] != int64(x.HeldOnHanded) {
+				return &failure{kind: "diff", class: "c09.inflight-count", step: i, impl: x.HeldOnHanded, model: m.Counts[i][0],
+					what: fmt.Sprintf("after op %d (%s): %d unfinished requests were admitted by the local limiter in force, the model counts %d", i, rig.Canon(cs.Ops[i]), x.HeldOnHanded, m.Counts[i][0])}, res
+			}
+			if o.RLim != nil && o.RLim.Size != nil && m.Counts[i][1] != int64(x.HeldOnRemote) {
+				return &failure{kind: "diff", class: "c09.inflight-count", step: i, impl: x.HeldOnRemote, model: m.Counts[i][1],
+					what: fmt.Sprintf("after op %d (%s): %d unfinished requests were admitted by the remote limiter in force, the model counts %d", i, rig.Canon(cs.Ops[i]), x.HeldOnRemote, m.Counts[i][1])}, res
+			}
+		}
 		if a, b := rig.Canon(res.Obs[i]), rig.Canon(m.Model[i]); a != b {
 			return &failure{kind: "diff", class: "c09.obs", step: i, impl: res.Obs[i], model: m.Model[i],
 				what: fmt.Sprintf("after op %d (%s): implementation %s, model %s", i, rig.Canon(cs.Ops[i]), a, b)}, res
